@@ -1219,9 +1219,14 @@ func (b *Builder) fields(depth int, own *model.Method, sd *spec.TypeDecl) ([]spe
 				b.extendDoc = append(b.extendDoc, "extend "+f.Name)
 				b.extPairs = append(b.extPairs, namedPair{src, t})
 			}
+			// value -> pointer targets need a named temporary even when the function cannot fail
+			viaPtr := !b.noNillable && !b.comparableOnly && b.coin("digit-siblings-pointer-targets")
 			for _, t := range []*spec.T{t2, t1, t1} {
 				nm := name()
 				fs = append(fs, spec.F(nm, src))
+				if viaPtr {
+					t = spec.Ptr(t)
+				}
 				ft = append(ft, spec.F(nm, t))
 			}
 		case "mapfunc-nosource":
